@@ -30,6 +30,11 @@ CLAIMS = {
   note="Float refill treated as exact real floor in the lemma (uninterpreted in the code-level contract); mathematical integers (mathint) in the closure and the conversion; invariant over the captured map assumed at entry / re-proved at Unlock; cleanup goroutine not under contract; 'a client within the rate is never rejected' not decided. Five recorded findings: N/sec, N/hour, N/day are converted to buckets of 60N / ceil(N/60) / ceil(N/1440) and rounded-up per-minute rates (pinned by an existing test, hence recorded rather than repaired).",
   technique="contract-based deductive verification: at-unlock assertions + ghost call counter over go/ssa WP, ghost SMT lemma for the history bound, call-site preconditions for the conversion",
   design="§5 C11"),
+ "C06": dict(
+  text="Deductive proof, with a ghost counter of handler invocations, that the wrapped handler is invoked by the API-key closure only when the trimmed X-API-Key / Bearer value is a non-empty member of the configured key set, by the bearer-token closure only when the Authorization value (Bearer prefix stripped) is a configured token, and never by the deny-all closure; 401 is sent only for a bad credential and 429 only during a lockout (so a valid credential passes unless locked out); authMiddleware returns a middleware for every declared auth and builds credential-checking middlewares only over a non-empty set without blank entries (otherwise deny-all); routeMiddlewares puts it in the chain; the dispatcher loop is proved to invoke exactly mw[0](mw[1](...(Handler))) and nothing on a 404.",
+  note="Assumes the dyn() contracts for RouteHandler/Middleware values (invocation counted by ghost ncalls, application = wrap), http.Header.Get deterministic, router type invariant; registerRoute/registerCompiledRoute (pass routeMiddlewares(route) through) not under contract; the code compares bearer tokens with the secret (no JWT signature check). One genuine defect found and repaired: recordAuthFailure dereferenced a tracker that another critical section may have deleted (nil obligation).",
+  technique="contract-based deductive verification: ghost call counter, dyn() contracts for func values, recursive spec function for the middleware chain, WP over go/ssa",
+  design="§5 C06"),
 }
 
 def main():
